@@ -4,6 +4,41 @@ From Verif Require Import Common.Outcome Config.Model.
 Import ListNotations.
 Open Scope string_scope.
 
+Lemma strs_eqb_eq a : forall b, strs_eqb a b = true -> a = b.
+Proof.
+  induction a as [|x r IH]; intros b H; destruct b as [|y s]; try discriminate; [reflexivity|].
+  cbn [strs_eqb] in H. apply andb_prop in H. destruct H as [H1 H2]. apply String.eqb_eq in H1. subst y.
+  rewrite (IH s H2). reflexivity.
+Qed.
+Lemma validator_eqb_eq a b : validator_eqb a b = true -> a = b.
+Proof.
+  destruct a; destruct b; cbn [validator_eqb]; try discriminate; intros H; try reflexivity.
+  - apply strs_eqb_eq in H. subst. reflexivity.
+  - apply String.eqb_eq in H. subst. reflexivity.
+  - apply Z.eqb_eq in H. subst. reflexivity.
+  - apply String.eqb_eq in H. subst. reflexivity.
+Qed.
+Lemma validators_eqb_eq a : forall b, validators_eqb a b = true -> a = b.
+Proof.
+  induction a as [|x r IH]; intros b H; destruct b as [|y s]; try discriminate; [reflexivity|].
+  cbn [validators_eqb] in H. apply andb_prop in H. destruct H as [H1 H2]. apply validator_eqb_eq in H1. subst y.
+  rewrite (IH s H2). reflexivity.
+Qed.
+Lemma field_eqb_eq a b : field_eqb a b = true -> a = b.
+Proof.
+  unfold field_eqb. intros H. repeat (apply andb_prop in H; destruct H as [H ?]).
+  destruct a as [an ay ak at']; destruct b as [bn by' bk bt]. cbn [f_name f_yaml f_kind f_tag] in *.
+  apply String.eqb_eq in H. subst bn.
+  match goal with E : String.eqb ay by' = true |- _ => apply String.eqb_eq in E; subst by' end.
+  assert (ak = bk).
+  { destruct ak; destruct bk; cbn [kind_eqb] in *; try discriminate; try reflexivity;
+      match goal with E : String.eqb _ _ = true |- _ => apply String.eqb_eq in E; subst; reflexivity end. }
+  assert (at' = bt).
+  { destruct at'; destruct bt; cbn [vtag_eqb] in *; try discriminate; try reflexivity.
+    match goal with E : validators_eqb _ _ = true |- _ => apply validators_eqb_eq in E; subst; reflexivity end. }
+  subst. reflexivity.
+Qed.
+
 Section Proofs.
   Variable str_ok : string -> string -> bool.
   Variable int_ok : string -> Z -> bool.
@@ -98,6 +133,23 @@ Section Proofs.
     - apply andb_prop in Hg. destruct Hg as [Hskip Hrest].
       destruct (f_tag f) as [| |vs'] eqn:Etag; try discriminate;
         apply (IH fuel' s x Hrest Hfields Hnest).
+  Qed.
+
+  (* one field of an accepted struct passes typeCheck; one failing field makes the struct fail *)
+  Lemma field_passes_gen fuel sname fs f v :
+    assoc sname T = Some fs -> In f fs -> vs_err (S fuel) sname v = false ->
+    type_check f (fld v (f_name f)) = false.
+  Proof.
+    intros Ha Hin He. cbn [Model.vs_err] in He. rewrite Ha in He.
+    pose proof (existsb_false _ _ He f Hin) as H. cbv beta in H. apply orb_false_iff in H. tauto.
+  Qed.
+
+  Lemma field_fails_gen fuel sname fs f v :
+    assoc sname T = Some fs -> In f fs -> type_check f (fld v (f_name f)) = true ->
+    vs_err (S fuel) sname v = true.
+  Proof.
+    intros Ha Hin Ht. cbn [Model.vs_err]. rewrite Ha.
+    apply existsb_exists. exists f. split; [exact Hin|]. rewrite Ht. apply orb_true_r.
   Qed.
 
   Lemma get_app : forall p q v, get v (p ++ q) = (do x <- get v p; get x q).
